@@ -299,6 +299,110 @@ def run_overlap(c):
     return vs, steps, True
 
 
+def run_under_ingest(c):
+    """a move (either direction) while an already-admitted ingest keeps
+    streaming `w` units per step into the hot tier through the real
+    HotBuffer.process_incoming_data_stream (k steps, from step `gap`).  The
+    stream may over-commit the hot tier mid-move (admission ignores in-flight
+    returns: C07's finding); whatever the hot tier's level, each step of the
+    move must add to one tier exactly what it takes from the other:
+    hot_free + cold_free + streamed == constant after every step, and both
+    tiers end adjusted by exactly the size.  -> (violations, steps, moved)"""
+    env, probe, buf = build(c)
+    h, cold = buf.hot[0], buf.cold[0]
+    size, mv = c["size"], c["moves"][0]
+    obs = Observation("a", 0, 1, 1, "none", size)
+    obs.total_data_size = size
+    src, dst = (h, cold) if mv == "h2c" else (cold, h)
+    src.observations['stored'].append(obs)
+    src.current_capacity -= size
+    streamed = [0]
+
+    def writer():
+        if c["gap"]:
+            yield env.timeout(c["gap"])
+        for _ in range(c["k"]):
+            h.process_incoming_data_stream(c["w"], env.now)
+            streamed[0] += c["w"]
+            yield env.timeout(1)
+    total0 = h.current_capacity + cold.current_capacity
+    h0, c0 = h.current_capacity, cold.current_capacity
+    if c.get("writer_first"):
+        wp = env.process(writer())
+    proc = env.process(buf.move_hot_to_cold(0) if mv == "h2c"
+                       else buf.move_cold_to_hot(0))
+    if not c.get("writer_first"):
+        wp = env.process(writer())
+    vs, steps = [], 0
+    limit = size + c["gap"] + c["k"] + 6
+    try:
+        while steps <= limit:
+            while env._queue and env._queue[0][0] <= env.now:
+                env.step()
+            tot = h.current_capacity + cold.current_capacity + streamed[0]
+            if tot != total0:
+                vs.append(("C18.conserved-each-step",
+                           "%s-under-ingest:total-not-conserved" % mv,
+                           {"step": steps, "hot_free": h.current_capacity,
+                            "cold_free": cold.current_capacity,
+                            "streamed": streamed[0],
+                            "expected_sum": total0}))
+                break
+            if proc.triggered and wp.triggered:
+                break
+            steps += 1
+            env._now = env.now + 1
+    except Exception as e:
+        vs.append(("C18.completes", "%s-under-ingest:raised-%s"
+                   % (mv, type(e).__name__), {"error": repr(e)}))
+        return vs, steps, False
+    if vs:
+        return vs, steps, True
+    if not proc.triggered:
+        vs.append(("C18.completes", "%s-under-ingest:never-completes" % mv,
+                   {"steps": steps}))
+        return vs, steps, True
+    if proc.value is False:
+        # refused: nothing but the stream may have changed
+        if (h.current_capacity, cold.current_capacity) != \
+                (h0 - streamed[0], c0) or obs not in \
+                src.observations['stored']:
+            vs.append(("C18.refused-without-room",
+                       "%s-under-ingest:refused-move-changed-state" % mv,
+                       {"hot_free": h.current_capacity,
+                        "cold_free": cold.current_capacity}))
+        return vs, steps, False
+    sgn = 1 if mv == "h2c" else -1
+    if h.current_capacity != h0 + sgn * size - streamed[0] or \
+            cold.current_capacity != c0 - sgn * size:
+        vs.append(("C18.free-space-adjusted", "%s-under-ingest:not-by-size"
+                   % mv, {"hot_free": h.current_capacity,
+                          "cold_free": cold.current_capacity,
+                          "streamed": streamed[0]}))
+    return vs, steps, True
+
+
+def under_ingest_domain(tier):
+    sizes = (3, 6, 10) if tier != "thorough" else range(2, 13)
+    rates = [(1, 1), (2, 3), (3, 2)] if tier != "thorough" else \
+        [(a, b) for a in range(1, 5) for b in range(1, 5)]
+    for size, (hr, cr), mv in itertools.product(sizes, rates,
+                                                 ("c2h", "h2c")):
+        for room in (0, 2, size):         # hot room beyond the observation
+            for w, k, gap in itertools.product((1, 3), (2, 5), (0, 1, 3)):
+                for wf in (False, True):
+                    yield {"engine": "E2", "under_ingest": True,
+                           "size": size, "hotrate": max(hr, w),
+                           "coldrate": cr,
+                           # hot->cold: the stream was admitted into real
+                           # room; cold->hot: the return may be over-
+                           # committed by the stream (reachable: C07 finding)
+                           "hotcap": size + room + (w * k if mv == "h2c"
+                                                    or room == size else 0),
+                           "coldcap": size + 4, "w": w, "k": k, "gap": gap,
+                           "writer_first": wf, "moves": [mv]}
+
+
 def overlap_domain(tier):
     sizes = [(3, 5), (6, 10), (4, 4), (2, 7), (5, 1)]
     rates = [(1, 1), (2, 2), (2, 3), (3, 2), (4, 1)]
@@ -363,19 +467,23 @@ def run(rep, tier, seed):
     rep.assumptions = ["moves driven directly on the Buffer (the policy that "
                        "decides when to move is exercised by C05/C07)"]
     items = common.rotate(list(domain(tier)) + list(overlap_domain(tier))
-                          + list(huge_domain(tier)),
+                          + list(huge_domain(tier))
+                          + list(under_ingest_domain(tier)),
                           seed)
 
     def work(i, c):
         if c.get("overlap"):
             return run_overlap(c)
+        if c.get("under_ingest"):
+            return run_under_ingest(c)
         return run_history(c)
     res, _ = engine.parallel_map(work, items, chunk=100)
     both = set()
     for c, (vs, steps, moved) in zip(items, res):
         s = rep.scope("E2-buffer-%s%s" % ("-".join(c["moves"]),
                                           "-overlapping" if c.get("overlap")
-                                          else ""))
+                                          else "-under-ingest"
+                                          if c.get("under_ingest") else ""))
         s["cases"] += 1
         s["executions"] += 1
         rep.evaluations += 1
@@ -399,6 +507,8 @@ def run(rep, tier, seed):
 def replay(payload):
     if payload.get("overlap"):
         vs, _, _ = run_overlap(payload)
+    elif payload.get("under_ingest"):
+        vs, _, _ = run_under_ingest(payload)
     else:
         vs, _, _ = run_history(payload)
     return [{"clause": a, "cause": b, "detail": c} for a, b, c in vs]
